@@ -109,6 +109,8 @@ def run(cx):
     r6(cx)
     cx.rule("C01.R7", "K1", "a parent whose children are all terminal is closed by its review: the completing write of Step / Act / Branch / Workflow::review depends on nothing but the task running and the all-children-terminal fact (a review that withholds the completion for some other reason leaves the task running with nothing left to wake it)")
     r7_review_closes(cx)
+    cx.rule("C01.R8", "K1", "wait / wake agreement: a composite waits (before it completes itself) only for tasks that report back to it when they end - a lifecycle-hook act does not review its parent, so no completion test may wait for one; a quantified test over the tasks of the process waits only for tasks directly beneath the task")
+    r8_wait_wake(cx)
 
 
 class EndToldMon(T.Monitor):
@@ -405,7 +407,7 @@ def r7_review_closes(cx):
                r"^match\(.*Iterator.*next\)=(None|Some)$", r"^match\(.*branch.*\)=Continue$",
                # what the scan tests on each CHILD before it counts it (a failed / skipped / resumable child ends the scan)
                r"^TaskState::is_(error|skip|success|pending)=False$", r"^Task::is_ready=False$", r"is_empty=True$",
-               r"^<.* as Iterator>::all=True$", r"Iterator.*::all=True$"]
+               ]
     n = 0
     for q, f in sorted(m.fns.items()):
         if not re.search(r"ActTask for acts::model::\w+::\w+>::review$", q):
@@ -417,6 +419,73 @@ def r7_review_closes(cx):
             recv = pa.root(f, c.args[0])
             if r[0] == "agg" and r[2] == "Completed" and recv[0] == "call" and recv[1] == T.Q_CTX_TASK:
                 n += 1
+                from rules.common import wait_set
+                ws = wait_set(m, pa, f, c, recv)
+                if ws is not None:
+                    # the quantifier that holds at the write is the all-children-terminal fact itself (its content is R8's)
+                    allowed = allowed + [r"Iterator>::(any|all)=(True|False)$"]
                 exact_guards(cx, "C01.R7", "closes:%s" % f.short, f, c.b, required=[r"^TaskState::is_running=True$"], allowed=allowed,
                              what="`%s` completes its task as soon as all children are terminal" % f.short, loc=c.loc)
     cx.floor("C01.R7", 4)
+
+
+def r8_wait_wake(cx):
+    m = cx.m
+    pa = Prov(m, "alias")
+    from vlib.model import conditions_of
+    from rules.common import wait_set
+    from rules import c03
+    # (1) who reports back: Task::next reviews the parent of the task that ended, Task::review runs the node's review
+    nx = m.one(ARC_TASK_IMPL + r"next$")
+    rv = m.one(ARC_TASK_IMPL + r"review$")
+    sup = []
+    wake = [c for c in nx.calls() if re.search(r"ActTask.*::review$", c.q)]
+    if not wake:
+        raise Anchor("Task::next: the review of the parent was not found")
+    for c in wake:
+        if any(re.search(r"is_event_processed=False$", gdesc(m, g)) for g in conditions_of(m, nx, c.b, mode="value") if g.necessary):
+            sup.append("Task::next reviews the parent only when the ended task is no hook act")
+    node_rev = [c for c in rv.calls() if re.search(r"ActTask for acts::model::\w+::\w+>::review$", c.q)]
+    if not node_rev:
+        raise Anchor("Task::review: the dispatch to the node's review was not found")
+    if all(any(re.search(r"is_event_processed=False$", gdesc(m, g)) for g in conditions_of(m, rv, c.b, mode="value") if g.necessary) for c in node_rev):
+        sup.append("Task::review returns at once when the ended task is a hook act")
+    cx.note("C01.R8: hook acts %s" % ("do not report back (%s)" % "; ".join(sup) if sup else "report back like any other task"))
+    # (2) what is waited for
+    n = 0
+    waits_quantified = []
+    for q, f in sorted(m.fns.items()):
+        if not re.search(r"ActTask for acts::model::(step::Step|act::Act|branch::Branch|workflow::Workflow)>::(next|review|run)$", q):
+            continue
+        for c in f.calls():
+            if c.q != T.Q_SET_STATE:
+                continue
+            r = pa.root(f, c.args[1])
+            recv = pa.root(f, c.args[0])
+            if not (r[0] == "agg" and r[2] == "Completed" and recv[0] == "call" and recv[1] == T.Q_CTX_TASK):
+                continue
+            ws = wait_set(m, pa, f, c, recv)
+            n += 1
+            if ws is not None:
+                waits_quantified.append(f.short)
+                ended = ws["done"]({"ended": True, "hook": False, "beneath": True}) == {True} and ws["done"]({"ended": True, "hook": True, "beneath": True}) == {True}
+                cx.ob("C01.R8", "ended-not-waited:%s" % f.short, ended, "`%s`: a task that has ended does not hold the completion back (%s)" % (f.short, ws["how"]), c.loc)
+                hook = (not sup) or ws["done"]({"ended": False, "hook": True, "beneath": True}) == {True}
+                cx.ob("C01.R8", "waits-for-hook:%s" % f.short, hook,
+                      "`%s`: an open hook act does not hold the completion back (it would never report back) (%s)" % (f.short, ws["how"]), c.loc)
+                if ws["domain"] == "process":
+                    far = ws["done"]({"ended": False, "hook": False, "beneath": False}) == {True}
+                    cx.ob("C01.R8", "beneath-only:%s" % f.short, far,
+                          "`%s`: of all tasks of the process only those directly beneath the task are waited for (a deeper task reports to its own parent, a task of an abandoned round to nobody) (%s)" % (f.short, ws["how"]), c.loc)
+                continue
+            fact, how = c03.all_children_fact(m, pa, f, c, recv)
+            if not (fact and how.startswith("count ==")):
+                cx.ob("C01.R8", "waits-for-none:%s" % f.short, True, "`%s` completes its task without waiting for a task beneath it (%s): nothing can be waited for in vain" % (f.short, how), c.loc)
+            if fact and how.startswith("count =="):
+                cx.ob("C01.R8", "waits-for-hook:%s" % f.short, not sup,
+                      "`%s` completes its task when count == children().len(): every child is waited for, a lifecycle-hook act among them, but %s - once the hook act is the last child to end nothing wakes the task again" % (
+                          f.short, "; ".join(sup) if sup else "hook acts report back"), c.loc)
+    # (3) a task that waits for EVERY task beneath it also waits for the old task of a step that Back redoes: it must be closed
+    if any("Workflow" in x for x in waits_quantified):
+        c03.back_target_closed(cx, "C01.R8")
+    cx.floor("C01.R8", 8)
